@@ -113,6 +113,10 @@ def h17 : List String → Option String
   | ["rpow", x, n] => do let x ← parseF x; let n ← parseF n; some (fmtF (rpow x n))
   | "v.rpow_sv" :: x :: a => do let x ← parseF x; let (n, _) ← takeFloats a; some (fmtFloatArr (n.map (rpow x)))
   | "v.rpow_vs" :: n :: a => do let n ← parseF n; let (x, _) ← takeFloats a; some (fmtFloatArr (x.map (fun v => rpow v n)))
+  | "v.rpow_vv" :: a => do
+    let (x, rest) ← takeFloats a
+    let (n, _) ← takeFloats rest
+    if x.size != n.size then some "ERR" else some (fmtFloatArr ((x.zip n).map (fun p => rpow p.1 p.2)))
   | ["rpowi", x, n] => do let x ← parseF x; let n ← parseI n; some (fmtF (rpowi x n))
   | "v.rpowi" :: n :: a => do let n ← parseI n; let (x, _) ← takeFloats a; some (fmtFloatArr (rpowiArr x n))
   | ["cpow", a, b, n] => do let a ← parseF a; let b ← parseF b; let n ← parseF n; some (fmtC (cpow ⟨a, b⟩ n))
